@@ -40,8 +40,8 @@ JoinStr(ss, sep) == IF Len(ss) = 0 THEN "" ELSE IF Len(ss) = 1 THEN ss[1] ELSE s
 \* into a tuple once (concatenation is implemented on tuples).
 T(f) == f \o <<>>
 
-RECURSIVE Flat(_)
-Flat(ss) == IF Len(ss) = 0 THEN <<>> ELSE ss[1] \o Flat(Tail(ss))
+\* concatenation of a sequence of sequences (FoldLeft is evaluated iteratively by TLC: no deep recursion on long sequences)
+Flat(ss) == FoldLeft(LAMBDA acc, e : acc \o e, <<>>, T(ss))
 
 HasElem(s, e) == \E i \in 1..Len(s) : s[i] = e
 NoDup(s) == \A i, j \in 1..Len(s) : i # j => s[i] # s[j]
